@@ -14,7 +14,7 @@ Definition outP1 (tf : list coin) (d : string) (m : submsg) : Z :=
   | MTfCreateDenom _ => camt tf d
   | MTfMint c to => if String.eqb to PM then - camt [c] d else 0
   | MTfBurn c => camt [c] d
-  | MWasm _ _ funds => camt funds d
+  | MWasm _ _ funds => (if wants_success (sm_reply m) then 2 else 1) * camt funds d   (* a call whose reply re-deposits what it sent (single-asset provision) counts twice *)
   end.
 Fixpoint outP (tf : list coin) (msgs : list submsg) (d : string) : Z :=
   match msgs with [] => 0 | m :: r => outP1 tf d m + outP tf r d end.
@@ -281,7 +281,7 @@ Proof.
     apply bind_ok in H. destruct H as [sim [_ H]].
     apply bind_ok in H. destruct H as [og [_ H]].
     apply bind_ok in H. destruct H as [[] [_ H]]. inversion H; subst s' msgs; clear H.
-    unfold res, pm_with_buffer. cbn [pm_pools outP outP1 sm_msg camt denom_of amount_of fst snd].
+    unfold res, pm_with_buffer. cbn [pm_pools outP outP1 sm_msg sm_reply wants_success camt denom_of amount_of fst snd].
     rewrite <- Hagg. cbn [camt].
     assert (Hd0 : 0 <= amount_of d0).
     { (* the aggregated amount of a denom is the sum of non-negative amounts *)
@@ -292,7 +292,7 @@ Proof.
         assert (0 <= camt rr (denom_of d0)) by (apply IH; intros x Hx; apply Hfn; right; exact Hx).
         destruct (String.eqb (denom_of c) (denom_of d0)); lia. }
       lia. }
-    assert (amount_of d0 / 2 <= amount_of d0) by (apply Z.div_le_upper_bound; lia).
+    assert (2 * (amount_of d0 / 2) <= amount_of d0) by (apply Z.mul_div_le; lia).
     assert (0 <= amount_of d0 / 2) by (apply Z.div_pos; lia).
     destruct (String.eqb (denom_of d0) d); lia.
   - (* two or more assets *)
@@ -349,7 +349,7 @@ Proof.
         apply bind_ok in Hm1. destruct Hm1 as [m [Hmint Hm1]].
         apply bind_ok in Hmint. destruct Hmint as [[] [_ Hmint]]. inversion Hmint; subst m; clear Hmint.
         assert (E : forall fmm, outP (w_tf_fee w) [plain (MTfMint (p_lp p, shares) PM); plain (MWasm (pm_farm_manager (pm_cfg (w_pm w))) fmm [(p_lp p, shares)])] d = 0).
-        { intros fmm. cbn [outP outP1 plain sm_msg camt denom_of amount_of fst snd]. cbn [String.eqb PM Ascii.eqb Bool.eqb].
+        { intros fmm. cbn [outP outP1 plain sm_msg sm_reply wants_success camt denom_of amount_of fst snd]. cbn [String.eqb PM Ascii.eqb Bool.eqb].
           destruct (String.eqb (p_lp p) d); lia. }
         destruct l as [lid|].
         + destruct (q_position w (pm_farm_manager (pm_cfg (w_pm w))) lid) as [pos|e].
